@@ -150,6 +150,10 @@ type Profile struct {
 	MaxTxns     int
 	WalletHeavy bool // the wallet actor takes part in most transactions
 	NoContracts bool
+	// FarSharedEnds: v1 contracts share three far window ends (see Builder.FarEnds)
+	FarSharedEnds bool
+	// V1ContractHeavy biases v1 bodies towards contract formation/revision/proofs
+	V1ContractHeavy bool
 }
 
 // RandomBody fills a builder with PRNG-chosen transactions appropriate to the
@@ -185,7 +189,11 @@ func (t *Tree) RandomBody(b *Builder, prof Profile) {
 			nv1 = t.Rng.IntN(n + 1)
 		}
 		for i := 0; i < nv1; i++ {
-			switch k := t.Rng.IntN(12); {
+			k := t.Rng.IntN(12)
+			if prof.V1ContractHeavy && k < 4 && t.Rng.IntN(2) == 0 {
+				k = 5 + t.Rng.IntN(7)
+			}
+			switch {
 			case k < 4:
 				b.V1Spend(actor(), 0.4)
 			case k < 5:
@@ -261,6 +269,7 @@ func (t *Tree) Extend(parent *Node, prof Profile) *Node {
 		return t.ExtendHeaderOnly(parent)
 	}
 	bb := parent.L.NewBuilder(t.Rng)
+	bb.FarEnds = prof.FarSharedEnds
 	t.RandomBody(bb, prof)
 	child := parent.Height + 1
 	v2 := child >= t.Env.Net.HardforkV2.AllowHeight && (child >= t.Env.Net.HardforkV2.RequireHeight || t.Rng.IntN(3) != 0)
